@@ -3,6 +3,8 @@ CONSTANTS
   Sessions = {1, 2, 3, 4}
   PkForms = {"comp", "uncomp", "bad"}
   SigForms = {"full", "nov", "vflip", "rflip", "empty", "short", "long"}
-  MaxOps = 11
+  MaxOps = 12
+  MaxChurn = 1
   RecordHist = FALSE
 INVARIANT AcceptorFresh SecretsDistinct ReplayedNeverIdentified BoundToSession NoImpersonationAtAcceptor DialerSeesSessionEnd AttackerNeverOther
+PROPERTIES IdentityFinal
